@@ -337,6 +337,15 @@ func checkC15(c CompCase, o *Obs) error {
 		if pmd && clean && !offered {
 			return fmt.Errorf("server announced permessage-deflate although the client did not offer it (offer %q)", c.Offer)
 		}
+		if pmd {
+			lenient := false
+			for _, n := range wsref.ExtNamesLenient(c.Offer) {
+				lenient = lenient || n == "permessage-deflate"
+			}
+			if !lenient {
+				return fmt.Errorf("server announced permessage-deflate although the name only occurs inside a quoted-string of the offer %q", c.Offer)
+			}
+		}
 		if clean && offered && c.UpgraderOn && !pmd {
 			return fmt.Errorf("client offered permessage-deflate (%q) and the server enabled compression, but the 101 does not announce it", c.Offer)
 		}
